@@ -31,6 +31,10 @@ CONFIGS = {
     "SV3.s32.POD.led": (6, "sv", 3, 2**31 - 1, "TC", "led"),
     "SV2.u32.OA16.led": (6, "sv", 2, 2**32 - 1, "TC", "led"),
     "FCV3.u8.OA16": (7, "fcv", 3, 255, "TC", "none"),
+    # element type whose move constructor / move assignment can throw (fault enumeration); the model treats it as NTR
+    "SV3.u8.NTM.led": (6, "sv", 3, 255, "NTM", "led"),
+    "vec.u32.NTM.led": (7, "vec", 0, 2**32 - 1, "NTM", "led"),
+    "FCV5.u8.NTM": (7, "fcv", 5, 255, "NTM", "none"),
 }
 
 
